@@ -25,6 +25,8 @@ def run(ctx):
     simrules.classical_basis_index_rule(ctx, 'C01.f')
     simrules.merged_state_rule(ctx, 'C01.g')
     simrules.integer_digit_rule(ctx, 'C01.h')
+    simrules.factoring_rule(ctx, 'C01.i')
+    ctx.decided.append('C01.i the linalg factoring helpers behind the product-state container split product tensors along any ordered choice of axes and refuse entangled ones')
     ctx.decided.append('C01.h an integer initial state is split into per-qudit digits with integer arithmetic only')
     ctx.decided.append('C01.g every merged product state is built from the zero-qubit factor that carries the global phase')
     ctx.decided.append('C01.f every basis[k] in the classical simulator is indexed by a position its qubits map to')
